@@ -188,7 +188,9 @@ FinalChecks(run, final) ==
       v7 == Add(v6, ~timedOut /\ ~(IF stopped THEN C04_OutcomeStop(Steps, status, run, completedAtStop)
                                                 ELSE C04_OutcomeNoStop(Steps, status, run)), "C04_WrongOutcome")
       v8 == Add(v7, ~timedOut /\ ~c.dry /\ ~C04_Handlers(Rng(c.handlers), run, hlog), "C04_WrongHandlers")
-      v9 == Add(v8, \E s \in Steps : alive[s], "C05_ReturnedWithLiveProcess")
+      \* the error Schedule returns is what the start command exits with and what the mail report says: it agrees with the status
+      v8b == Add(v8, ~timedOut /\ ((E.err /\ run = FIN) \/ (~E.err /\ run = FAIL)), "C04_ReturnedErrorDisagreesWithOutcome")
+      v9 == Add(v8b, \E s \in Steps : alive[s], "C05_ReturnedWithLiveProcess")
       v10 == Add(v9, \E s \in Steps : status[s] \in {RUN} , "C08_FinalStatusRunning")
       v11 == Add(v10, stopped /\ ~completedAtStop /\ run # CANC /\ ~AllOK(Steps, status), "C05_StoppedRunNotCanceled")
       v12 == Add(v11, \E s \in Steps : final[s].st # status[s], "DRIFT_SnapshotMismatch")
